@@ -15,7 +15,7 @@ CONSTANTS ZZero, ZOne, ZFromInt(_), ZToInt(_), ZSign(_), ZIsZero(_), ZNeg(_), ZA
           ZShl(_, _), ZShr(_, _), ZBitLen(_), ZTrailing(_), ZIsOdd(_),
           ZLowZero(_, _), ZBit(_, _), ZPow(_, _), ZPow2(_), ZDivFloor(_, _), ZMod(_, _),
           ZMk(_, _)
-INSTANCE MpfPost
+INSTANCE MpiPost
 
 F(j) == Mpf(j.s, ZMk(0, j.m), j.e, j.bc)
 Zj(j) == ZMk(j.s, j.m)
@@ -27,6 +27,12 @@ Out(j) == CASE j.k = "f" -> [k |-> "f", v |-> F(j)]
             [] j.k = "z" -> [k |-> "z", v |-> Zj(j)]
             [] OTHER -> j
 Fs(js) == [i \in 1..Len(js) |-> Arg(js[i])]
+\* complex argument: kind c {re, im}, or a real kind (imaginary part zero)
+CArg(j) == IF j.k = "c" THEN <<Arg(j.re), Arg(j.im)>> ELSE <<Arg(j), FZero>>
+COut(j) == IF j.k = "c" THEN [k |-> "c", re |-> F(j.re), im |-> F(j.im)] ELSE j
+Iv(j) == <<F(j.a), F(j.b)>>
+Pts(js) == [i \in 1..Len(js) |-> DV(Arg(js[i]))]
+CPts(js) == [i \in 1..Len(js) |-> <<DV(Arg(js[i].re)), DV(Arg(js[i].im))>>]
 
 \* all real components of an outcome, as a set of mpf records
 RECURSIVE Comps(_)
@@ -67,6 +73,18 @@ Post(ev) ==
     [] op = "to_float" -> PostToFloat(Arg(a[1]), ev.o.s, ev.o.be, ZMk(0, ev.o.fr))
     [] op = "from_float" -> o.k = "f" /\ o.v = (IF p = 0 \/ ~IsFin(Arg(a[1])) THEN Arg(a[1]) ELSE RoundDy(Val(Arg(a[1])), p, r))
     [] op = "pow_int" -> PostPowInt(Arg(a[1]), ZToInt(Zj(a[2])), p, r, o)
+    [] op = "cadd" -> PostCAdd(CArg(a[1]), CArg(a[2]), p, r, COut(ev.o))
+    [] op = "csub" -> PostCSub(CArg(a[1]), CArg(a[2]), p, r, COut(ev.o))
+    [] op = "cmul" -> PostCMul(CArg(a[1]), CArg(a[2]), p, r, COut(ev.o))
+    [] op = "cdiv" -> PostCDiv(CArg(a[1]), CArg(a[2]), p, r, COut(ev.o))
+    [] op = "cpow" -> LET n == ZToInt(Zj(a[2])) IN
+                      IF n >= 0 THEN PostCPowIntExact(CArg(a[1]), n, p, r, COut(ev.o))
+                      ELSE PostCPowNeg(CArg(a[1]), -n, p, r, COut(ev.o))
+    [] op = "ceq" -> PostCEq(CArg(a[1]), CArg(a[2]), o)
+    [] op = "iv" -> IF ev.o.k = "x" THEN ev.x.mayraise
+                    ELSE PostIv(ev.x.f, Pts(ev.x.xs), Pts(ev.x.ys), ev.x.n, Iv(ev.o))
+    [] op = "civ" -> IF ev.o.k = "x" THEN ev.x.mayraise
+                     ELSE PostCiv(ev.x.f, CPts(ev.x.xs), CPts(ev.x.ys), ev.x.n, <<Iv(ev.o.re), Iv(ev.o.im)>>)
     [] op = "none" -> TRUE
 
 (*************************** C17 / C33: constants ***************************)
